@@ -135,8 +135,13 @@ def run_variant(job):
     try:
         for prop, idents in sorted(props.items()):
             globs = ',,'.join(sorted(idents | structural.get(prop, set())))
-            p = subprocess.run(['python3-vt', '-m', 'pyvc.driver', prop, '--no-evidence', '--no-replay', '--jobs', str(jobs_per), '--fuc', globs],
-                               cwd=HERE, capture_output=True, text=True, timeout=1800, env=dict(os.environ, PYVC_REPO=d))
+            try:
+                p = subprocess.run(['python3-vt', '-m', 'pyvc.driver', prop, '--no-evidence', '--no-replay', '--jobs', str(jobs_per), '--fuc', globs],
+                                   cwd=HERE, capture_output=True, text=True, timeout=1800, env=dict(os.environ, PYVC_REPO=d))
+            except subprocess.TimeoutExpired:
+                res['checks'][prop] = {'exit': 2, 'lines': ['UNDECIDED: check did not finish in 1800 s']}
+                worst = max(worst, 2)
+                continue
             lines = [l[:260] for l in p.stdout.splitlines() if l.startswith(('failed obligation', 'UNDECIDED', 'CHECKER-ERROR'))][:4]
             res['checks'][prop] = {'exit': p.returncode, 'lines': lines}
             worst = max(worst, p.returncode if p.returncode in (0, 1, 2, 3) else 3)
